@@ -17,6 +17,7 @@ type GenOpts struct {
 	NoFiles       bool
 	ErrorRate     int // percent chance of deliberately wrong constructs (unknown names, wrong arity ...)
 	CtxVars       []string // extra context variable names usable as plain values
+	CtxVarBias    int      // percent chance to pick one of CtxVars (default 50)
 }
 
 type Gen struct {
@@ -27,6 +28,7 @@ type Gen struct {
 	nfile  int
 	macros []genMacro
 	inFile int // nesting depth of file generation
+	inFilterTag bool
 	blocks int
 }
 
@@ -72,7 +74,11 @@ func (g *Gen) varName() string {
 	if len(g.locals) > 0 && g.r.Chance(40) {
 		return g.r.Pick(g.locals)
 	}
-	if len(g.o.CtxVars) > 0 && g.r.Chance(50) {
+	bias := 50
+	if g.o.CtxVarBias > 0 {
+		bias = g.o.CtxVarBias
+	}
+	if len(g.o.CtxVars) > 0 && g.r.Chance(bias) {
 		return g.r.Pick(g.o.CtxVars)
 	}
 	if g.r.Chance(g.o.ErrorRate) {
@@ -85,6 +91,11 @@ func (g *Gen) varName() string {
 func (g *Gen) path() string {
 	p := g.varName()
 	n := 0
+	for _, cv := range g.o.CtxVars {
+		if cv == p && g.r.Chance(90) {
+			return p // context paths are complete already
+		}
+	}
 	switch g.r.Intn(10) {
 	case 0, 1, 2, 3:
 		n = 0
@@ -96,10 +107,15 @@ func (g *Gen) path() string {
 		n = 3
 	}
 	for i := 0; i < n; i++ {
+		var st string
 		if g.r.Chance(g.o.ErrorRate) {
-			p += g.r.Pick(genBadSteps)
+			st = g.r.Pick(genBadSteps)
 		} else {
-			p += g.r.Pick(genSteps)
+			st = g.r.Pick(genSteps)
+		}
+		p += st
+		if strings.HasPrefix(st, "[") && !g.r.Chance(g.o.ErrorRate) {
+			break // the grammar accepts a subscript only as the last step of a name
 		}
 	}
 	return p
@@ -141,7 +157,7 @@ func (g *Gen) literal() string {
 
 var genParamFilters = map[string][]string{
 	"add": nil, "center": {"10", "0", "3"}, "cut": nil, "date": {"\"2006-01-02\""}, "time": {"\"15:04\""}, "default": nil, "default_if_none": nil, "divisibleby": {"2", "3", "0"},
-	"floatformat": {"2", "0", "-1"}, "get_digit": {"1", "2"}, "join": {"\", \"", "\"\""}, "length_is": {"3", "0"}, "ljust": {"8"}, "rjust": {"8"}, "pluralize": {"\"es\"", "\"y,ies\""},
+	"floatformat": {"2", "0", "3"}, "get_digit": {"1", "2"}, "join": {"\", \"", "\"\""}, "length_is": {"3", "0"}, "ljust": {"8"}, "rjust": {"8"}, "pluralize": {"\"es\"", "\"y,ies\""},
 	"removetags": {"\"b\"", "\"a,p\""}, "slice": {"\"1:\"", "\":2\"", "\"1:3\"", "\"-2:\""}, "split": {"\",\"", "\" \""}, "stringformat": {"\"%v\"", "\"%5d\"", "\"%s|\""},
 	"truncatechars": {"5", "3", "20"}, "truncatewords": {"2", "1"}, "truncatechars_html": {"5"}, "truncatewords_html": {"2"}, "urlizetrunc": {"10"}, "wordwrap": {"2"}, "yesno": {"\"y,n\"", "\"y,n,m\""},
 }
@@ -151,6 +167,9 @@ func (g *Gen) filterAllowed(f string) bool {
 		return false
 	}
 	if g.o.Deterministic && f == "random" {
+		return false
+	}
+	if g.inFilterTag && g.o.OptOutFree && (f == "urlize" || f == "urlizetrunc" || f == "linebreaks" || f == "linebreaksbr") {
 		return false
 	}
 	return true
@@ -211,7 +230,8 @@ func (g *Gen) expr(depth int) string {
 	case 0:
 		return "(" + g.expr(depth-1) + ")"
 	case 1:
-		return g.r.Pick([]string{"-", "not ", "!", "+"}) + g.atom(depth)
+		// unary operators are only grammatical at the start of a simple expression
+		return "(" + g.r.Pick([]string{"-", "not ", "!", "+"}) + g.atom(depth) + ")"
 	default:
 		op := g.r.Pick([]string{"+", "-", "*", "/", "%", "^", "==", "!=", "<>", "<", "<=", ">", ">=", "in", "and", "or", "&&", "||"})
 		l, r := g.expr(depth-1), g.expr(depth-1)
@@ -376,7 +396,19 @@ func (g *Gen) stmt(depth int) string {
 			for i := 0; i < na; i++ {
 				args = append(args, g.expr(1))
 			}
-			s += "{{ " + name + "(" + strings.Join(args, ", ") + ") }}"
+			call := name + "(" + strings.Join(args, ", ") + ")"
+			switch r.Intn(6) {
+			case 0:
+				s += "{{ " + call + " + " + g.atom(0) + " }}"
+			case 1:
+				s += "{{ " + g.atom(0) + " + " + call + " }}"
+			case 2:
+				s += "{% set mres = " + call + " %}{{ mres }}{% for it in " + g.r.Pick([]string{"z_strs", "z_anys", "z_ints"}) + " %}{{ mres }}{% set mres = it %}{% endfor %}"
+			case 3:
+				s += "{% with mw=" + call + " + " + g.atom(0) + " %}{{ mw }}{% endwith %}"
+			default:
+				s += "{{ " + call + " }}"
+			}
 		}
 		return s
 	case 17, 18:
@@ -397,9 +429,12 @@ func (g *Gen) stmt(depth int) string {
 		if r.Bool() {
 			s = "{% include \"" + ref + "\""
 		} else {
-			s = "{% include " + r.Pick([]string{"\"" + ref + "\"|lower", "incname", "\"" + ref + "\"|default:\"x\""})
-			if strings.Contains(s, "incname") {
+			// a lazy include: the name is computed at run time (a leading string literal would make it static)
+			if _, taken := g.files["#incname"]; !taken {
 				g.files["#incname"] = name
+				s = "{% include " + r.Pick([]string{"incname", "incname|default:\"x\"", "(incname)"})
+			} else {
+				s = "{% include (\"" + ref + "\")"
 			}
 		}
 		if r.Chance(20) {
@@ -450,7 +485,7 @@ func (g *Gen) stmt(depth int) string {
 		g.locals = saved
 		g.inFile--
 		name := g.newFile("/ssi/", content)
-		if r.Bool() {
+		if r.Bool() || g.o.OptOutFree {
 			return "{% ssi \"" + name + "\" parsed %}"
 		}
 		return "{% ssi \"" + name + "\" %}"
@@ -460,10 +495,12 @@ func (g *Gen) stmt(depth int) string {
 		}
 		return "{% autoescape " + r.Pick([]string{"on", "off"}) + " %}" + g.sub(depth) + "{% endautoescape %}"
 	case 22:
+		g.inFilterTag = true
 		chain := g.filterCall()
 		for k := r.Intn(3); k > 0; k-- {
 			chain += "|" + g.filterCall()
 		}
+		g.inFilterTag = false
 		return "{% filter " + chain + " %}" + g.sub(depth) + "{% endfilter %}"
 	case 23:
 		return "{% spaceless %}" + g.sub(depth) + "{% endspaceless %}"
@@ -524,6 +561,9 @@ func (g *Gen) stmt(depth int) string {
 	case 31:
 		if g.o.Deterministic {
 			return "{% now \"2006-01-02\" fake %}"
+		}
+		if g.o.OptOutFree {
+			return r.Pick([]string{"{% now \"2006\" %}", "{% now \"15:04\" fake %}", "{% lorem %}", "{% lorem 3 w %}", "{% lorem 5 w random %}", "{% lorem 2 b %}"})
 		}
 		return r.Pick([]string{"{% now \"2006\" %}", "{% now \"15:04\" fake %}", "{% lorem %}", "{% lorem 3 w %}", "{% lorem 2 p %}", "{% lorem 5 w random %}", "{% lorem 2 b %}"})
 	case 32:
